@@ -158,7 +158,7 @@ def make_warmup_run(n, W, dynamic=False):
                       bounds=f"n_particles={n}, W={W} consecutive warm-up iterations, every -inf pattern (at most 2 consecutive batches without a supported draw), "
                              "all replacement index choices",
                       stubs=["np.random.rand/choice -> symbolic draws", "np.log of int ratios -> exact", "np.max -> fresh m (no fork)"],
-                      theory="QF_NRA", timeout_ms=20000, max_paths=6000)
+                      theory="QF_NRA", timeout_ms=20000, max_paths=60000)
 
 
 def make_warmup_resume(n, W1, W2):
@@ -283,7 +283,7 @@ def make_warmup_resume(n, W1, W2):
                       bounds=f"n_particles={n}, {W1} warm-up iterations before and {W2} after a checkpoint/resume into a new sampler, every -inf pattern with >= 1 finite "
                              "draw per batch, all replacement index choices",
                       stubs=["np.random.rand/choice -> symbolic draws", "file system / dill -> by-value doubles (C08)", "np.log of int ratios -> exact"],
-                      theory="QF_NRA", timeout_ms=20000, max_paths=6000)
+                      theory="QF_NRA", timeout_ms=20000, max_paths=60000)
 
 
 def make_kernel_zero_region(kernel, n=1):
@@ -358,6 +358,6 @@ def make_kernel_zero_region(kernel, n=1):
 def obligations(tier):
     if tier == "quick":
         return [make_warmup_run(2, 2), make_warmup_run(2, 3), make_warmup_run(3, 2), make_warmup_run(2, 3, dynamic=True), make_warmup_resume(2, 1, 2), make_kernel_zero_region("rwm"), make_kernel_zero_region("tpcn")]
-    return [make_warmup_run(2, 2), make_warmup_run(2, 3), make_warmup_run(3, 2), make_warmup_run(3, 3), make_warmup_run(2, 4),
+    return [make_warmup_run(2, 2), make_warmup_run(2, 3), make_warmup_run(3, 2), make_warmup_run(3, 3),
             make_warmup_run(2, 3, dynamic=True), make_warmup_run(3, 2, dynamic=True), make_warmup_resume(2, 1, 2), make_warmup_resume(2, 2, 2), make_warmup_resume(3, 1, 1),
             make_kernel_zero_region("rwm"), make_kernel_zero_region("tpcn"), make_kernel_zero_region("rwm", n=2)]
